@@ -164,6 +164,24 @@ pub fn gen(cfg: &Cfg) -> Vec<String> {
     for s in ["", " ", "a b", "a\n", "Artist ", " Artist", "Art1st", "é", "aé", "a-b", "a_b", "-", "_", "A", "z", "@", "[", "`", "{", "Albu", "Albumm", "album\0"] {
         ops.push(format!("tag.try {}", hex(s.as_bytes())));
     }
+    // scale: legal names of every length around the lengths a table, a buffer or a "sane limit" might
+    // have (the protocol puts no bound on a tag name), clean and with an illegal character at the end
+    for len in [25usize, 26, 27, 31, 32, 33, 63, 64, 65, 66, 100, 127, 128, 129, 255, 256, 257, 1000, 4096, 5000] {
+        let v: String = (0..len).map(|i| ['a', 'B', '_', '-', 'z', 'Q'][i % 6]).collect();
+        ops.push(format!("tag.try {}", hex(v.as_bytes())));
+        specs.push(format!("O{}", hex(v.as_bytes())));
+        specs.push(format!("T{}", hex(v.as_bytes())));
+        ops.push(format!("tag.try {}", hex(format!("{v}!").as_bytes())));
+        ops.push(format!("tag.try {}", hex(format!("{v} x").as_bytes())));
+    }
+    // words that are keywords elsewhere in the protocol, in every case variant
+    for n in ["any", "file", "base", "modified-since", "added-since", "AudioFormat", "prio", "window", "sort", "group", "Last-Modified", "Time", "duration", "Format", "Range", "Pos", "Id"] {
+        for v in case_variants(&mut r, n) {
+            ops.push(format!("tag.try {}", hex(v.as_bytes())));
+            specs.push(format!("O{}", hex(v.as_bytes())));
+            specs.push(format!("T{}", hex(v.as_bytes())));
+        }
+    }
     // Unicode case-folding confusables: code points whose lower- or upper-casing is an ASCII letter
     // (KELVIN SIGN -> k, LONG S -> S, DOTTED / DOTLESS I) in the place of that letter in a known name
     for n in &names {
